@@ -33,7 +33,7 @@ for s in sigs:
             add(f"{prop}-Q3", "a two-hop pattern whose first expand produces no rows fails with 'Column not found' instead of returning no rows", "crates/grafeo-core/src/execution/operators/expand.rs / project.rs (empty chunk loses columns)", s)
         elif w.startswith("sparql"):
             add(f"{prop}-D7", "SPARQL inside a transaction: INSERT/DELETE DATA are buffered per transaction but queries read only the committed triple set, so a transaction does not see its own triple writes; rollback/drop simply forget the buffer", "crates/grafeo-engine/src/query/planner_rdf.rs:1607 (scan uses RdfStore::find), session.rs commit applies the buffer", s)
-        elif r in DB_LEVEL:
+        elif r in DB_LEVEL and prop == "C01":
             add(f"{prop}-D5", "database-level readers (node_count/edge_count/iter_nodes/iter_edges) read at the store's epoch without regard to who created a version: versions of open (uncommitted) transactions are counted and iterated", "crates/grafeo-core/src/graph/lpg/store.rs:1581-1650, 2355-2410 (visible_at(current_epoch) only)", s)
         elif prop == "C01" and sc.startswith("dirty_"):
             add("C01-D1", "dirty reads: a version created inside transaction T is stamped with T's start epoch and property/label/adjacency tables are updated in place, so other sessions see T's uncommitted INSERT/CREATE/SET/REMOVE/DELETE/label changes before T commits", "crates/grafeo-engine/src/session.rs:713-747, crates/grafeo-core/src/execution/operators/mutation.rs, crates/grafeo-core/src/graph/lpg/store.rs:847-905,1368-1530 (single-version tables)", s)
@@ -41,8 +41,8 @@ for s in sigs:
             add("C01-D2", "non-repeatable and phantom reads: a transaction that began before a foreign commit sees that commit's changes on its next read (same root causes as C01-D1: start-epoch stamping and in-place tables)", "same sites as C01-D1", s)
         elif prop == "C01" and sc == "own_write":
             add("C01-D3", "a transaction does not see some of its own writes through some read paths", "crates/grafeo-core/src/execution/operators/*.rs (paths that read at the store epoch / ignore the transaction id)", s)
-        elif prop == "C02" and sc == "rollback":
-            add("C02-R1", "rollback only drops node/edge versions created by the transaction (discard_uncommitted_versions); SET/REMOVE property, label changes, deletions, DETACH DELETE's edge removals and MERGE (which writes as SYSTEM) are applied in place and survive", "crates/grafeo-engine/src/session.rs:651-671, crates/grafeo-core/src/graph/lpg/store.rs:1997-2017", s)
+        elif prop == "C02" and sc in ("rollback", "session_dropped", "failed_commit"):
+            add("C02-R1", "rollback (and, since the fixes 6c33d96 / 67f3036, a failed commit and a dropped session, which now roll back) only drops node/edge versions created by the transaction (discard_uncommitted_versions); SET/REMOVE property, label changes, deletions, DETACH DELETE's edge removals and MERGE (which writes as SYSTEM) are applied in place and survive", "crates/grafeo-engine/src/session.rs:651-671, crates/grafeo-core/src/graph/lpg/store.rs:1997-2017", s)
         elif prop == "C02" and sc == "session_dropped":
             add("C02-R2", "dropping a session with an open transaction", "crates/grafeo-engine/src/session.rs", s)
         elif prop == "C02" and sc == "failed_commit":
@@ -52,12 +52,8 @@ for s in sigs:
     elif s.startswith("multi:"):
         body, outcome = s[6:].rsplit("=", 1)
         w, ending, regime = body.split("|")
-        if ending == "Rollback":
+        if ending in ("Rollback", "Drop", "FailedCommit"):
             add("C02-R1", "", "", s)
-        elif ending == "Drop":
-            add("C02-R2", "dropping a session with an open transaction", "crates/grafeo-engine/src/session.rs", s)
-        elif ending == "FailedCommit":
-            add("C02-R3", "a commit that returns an error", "crates/grafeo-engine/src/session.rs:615-629", s)
         else:
             add("C02-D4", "a committed write is lost", "see signature", s)
     else:
